@@ -148,7 +148,7 @@ func strip(v ssa.Value) ssa.Value {
 			var u ssa.Value
 			same := true
 			for _, e := range x.Edges {
-				e = strip(e)
+				e = stripNoPhi(e)
 				if e == x {
 					continue
 				}
@@ -488,4 +488,19 @@ func retValue(ret *ssa.Return, i int) ssa.Value {
 		return only
 	}
 	return v
+}
+
+func stripNoPhi(v ssa.Value) ssa.Value {
+	for {
+		switch x := v.(type) {
+		case *ssa.ChangeType:
+			v = x.X
+		case *ssa.MakeInterface:
+			v = x.X
+		case *ssa.ChangeInterface:
+			v = x.X
+		default:
+			return v
+		}
+	}
 }
